@@ -17,8 +17,8 @@ from .cdcmodel import chars
 from .common import Verdict, ensure_repo_on_path, replay_states
 from .tlc import run_tlc, cleanup, MachineryError
 
-KINDS_QUICK = ["R", "C", "Ra", "Ca", "Tlm", "TlmRC"]
-KINDS_FULL = ["R", "C", "Q", "Ra", "Rb", "Ca", "Tlm", "TlmRC", "TlmTlm", "Tlmt"]
+KINDS_QUICK = ["R", "C", "Ra", "Ru", "Qf", "Tlm", "TlmRC"]
+KINDS_FULL = ["R", "C", "Q", "Qf", "Ra", "Rb", "Ca", "Ru", "Tlm", "TlmRC", "TlmTlm", "Tlmt"]
 
 
 def cfg_text(leaves, depth, kinds, degenerate=False):
@@ -139,9 +139,21 @@ def judge_state(st, ctx):
                 for k, fp in r.parameters[name].items():
                     if fp.value != e.get_value(k):
                         return fail("fit-table:value-of-other-element", f"{name}.{k} = {fp.value} but the element's value is {e.get_value(k)}")
-            df = r.to_parameters_dataframe()
-            if len(df) != sum(len(v) for v in r.parameters.values()):
-                return fail("fit-table:dataframe-rows", f"{len(df)} rows for {sum(len(v) for v in r.parameters.values())} parameters")
+            for running in (False, True):
+                df = r.to_parameters_dataframe(running=running)
+                if len(df) != sum(len(v) for v in r.parameters.values()):
+                    return fail("fit-table:dataframe-rows", f"{len(df)} rows for {sum(len(v) for v in r.parameters.values())} parameters")
+                run_names = {}
+                for i in range(n):
+                    sym, lab = chars(exp["syms"][i]), labels[i]
+                    ext = f"{sym}_{lab}" if lab else f"{sym}_{exp['pertype'][i]}"
+                    run_names[(f"{sym}_{lab}" if lab else f"{sym}_{exp['running'][i]}") if running else ext] = ext
+                for _, row in df.iterrows():
+                    ext = run_names.get(row["Element"])
+                    fp = r.parameters.get(ext, {}).get(row["Parameter"]) if ext else None
+                    if fp is None or fp.value != row["Value"] or (row["Fixed"] == "Yes") != bool(fp.fixed) or row["Unit"] != fp.unit:
+                        return fail("fit-table:dataframe-row-differs-from-parameters",
+                                    f"to_parameters_dataframe(running={running}) row {dict(row)} is not FitResult.parameters[{ext!r}][{row['Parameter']!r}]")
     return res, 1, case
 
 
